@@ -155,6 +155,9 @@ def close(a, b, tol=1e-9):
     return a.shape == b.shape and np.allclose(a, b, rtol=tol, atol=tol, equal_nan=True)
 
 
+TOLS = {1: 1e-11, 2: 1e-10}      # "eigenvalue" tolerance (unit-root classification): no effect on the numbers compared here
+
+
 def compare_all(chk, kind, refs, models, st, where, payload, opname):
     for h in sorted(st["obj"]):
         variants = st["obj"][h]
@@ -164,6 +167,12 @@ def compare_all(chk, kind, refs, models, st, where, payload, opname):
         if m is None:
             raise MachineryError("handle %s in use in the spec but no model" % h)
         role = "touched" if h == touched(st["last"]) else "bystander"
+        if kind.name == "sim":
+            want_tol = TOLS.get(st["tol"][h], DEFAULT_TOL[0])
+            got_tol = float(m.get_tolerance("eigenvalue"))
+            if got_tol != want_tol:
+                chk.mismatch("model:sim:%s:tolerance:%s" % (opname, role), where + ": the eigenvalue tolerance of %s is %r, spec %r (a customised tolerance travels with copies and pickles)" % (h, got_tol, want_tol), payload)
+                return False
         if m.num_variants != len(variants):
             chk.mismatch("model:%s:%s:num-variants:%s" % (kind.name, opname, role), where + ": %s has %d variants, spec %d" % (h, m.num_variants, len(variants)), payload)
             return False
@@ -207,8 +216,13 @@ def touched(last):
     return last[2] if last[0] == "dup" else last[1]
 
 
+DEFAULT_TOL = [None]
+
+
 def check_history(chk, kind, refs, states, tmpdir):
     models = {"h1": kind.fresh()}
+    if kind.name == "sim" and DEFAULT_TOL[0] is None:
+        DEFAULT_TOL[0] = float(models["h1"].get_tolerance("eigenvalue"))
     kind.assign(models["h1"], [1], "g")
     kind.assign(models["h1"], [1], "rho")
     ops = [_plain(s["last"]) for s in states[1:]]
@@ -228,6 +242,8 @@ def check_history(chk, kind, refs, states, tmpdir):
                 models[last[1]].solve()
             elif op == "alter":
                 models[last[1]].alter_num_variants(last[2])
+            elif op == "tol":
+                models[last[1]].override_tolerance(eigenvalue=TOLS[last[2]])
             elif op == "dup":
                 try:
                     models[last[2]] = dup(models[last[1]], last[3], tmpdir, i)
